@@ -1,9 +1,10 @@
 // instr inserts cooperative yield points into a copy of a source file of the repository.
 //
-//	instr [-recv T1,T2] [-hook Name] <in.go> <out.go>
+//	instr [-recv T1,T2] [-funcs f1,f2] [-hook Name] <in.go> <out.go>
 //
 // Before every statement in the body of every method of *T (default *ContentStorage; recursively
-// through blocks, if/for bodies and the clauses of switch/select, but not inside function literals)
+// through blocks, if/for bodies, the clauses of switch/select and the bodies of function literals started
+// with go / defer, but not other function literals)
 // it inserts `Name("<func>:<line>")` (default VerifYield). Insertion is structural, so it keeps
 // working when the file is edited. The hook variable is declared by a build-tag-guarded file of the
 // repository (storage/pebble) or by a file the build overlay adds to the package (portalwire).
@@ -24,19 +25,26 @@ var hookName = "VerifYield"
 func main() {
 	recv := map[string]bool{"ContentStorage": true}
 	args := os.Args[1:]
-	for len(args) >= 2 && (args[0] == "-recv" || args[0] == "-hook") {
-		if args[0] == "-recv" {
+	var funcs map[string]bool // nil: every method of the receiver types
+	for len(args) >= 2 && (args[0] == "-recv" || args[0] == "-hook" || args[0] == "-funcs") {
+		switch args[0] {
+		case "-recv":
 			recv = map[string]bool{}
 			for _, t := range strings.Split(args[1], ",") {
 				recv[t] = true
 			}
-		} else {
+		case "-funcs":
+			funcs = map[string]bool{}
+			for _, t := range strings.Split(args[1], ",") {
+				funcs[t] = true
+			}
+		default:
 			hookName = args[1]
 		}
 		args = args[2:]
 	}
 	if len(args) != 2 {
-		fmt.Fprintln(os.Stderr, "usage: instr [-recv T1,T2] [-hook Name] in.go out.go")
+		fmt.Fprintln(os.Stderr, "usage: instr [-recv T1,T2] [-funcs f1,f2] [-hook Name] in.go out.go")
 		os.Exit(2)
 	}
 	fset := token.NewFileSet()
@@ -56,7 +64,7 @@ func main() {
 			continue
 		}
 		id, ok := st.X.(*ast.Ident)
-		if !ok || !recv[id.Name] {
+		if !ok || !recv[id.Name] || (funcs != nil && !funcs[fd.Name.Name]) {
 			continue
 		}
 		n += instrBlock(fset, fd.Name.Name, fd.Body)
@@ -146,6 +154,15 @@ func instrStmt(fset *token.FileSet, fn string, s ast.Stmt) int {
 		x.Body = bb.List
 	case *ast.LabeledStmt:
 		n += instrStmt(fset, fn, x.Stmt)
+	case *ast.GoStmt:
+		// the body of a goroutine started from an instrumented method belongs to it
+		if fl, ok := x.Call.Fun.(*ast.FuncLit); ok {
+			n += instrBlock(fset, fn+".go", fl.Body)
+		}
+	case *ast.DeferStmt:
+		if fl, ok := x.Call.Fun.(*ast.FuncLit); ok {
+			n += instrBlock(fset, fn+".defer", fl.Body)
+		}
 	}
 	return n
 }
